@@ -272,6 +272,17 @@ where
         bit_write: &mut W,
         mut n: u64,
     ) -> Result<(), CopyError<Self::Error, W::Error>> {
+        if self.bits_in_buffer > 64 {
+            // After a look-ahead refill the buffer may hold more than the 64
+            // bits a single write_bits call can move: transfer the excess first.
+            let excess = Ord::min(n, self.bits_in_buffer as u64 - 64) as usize;
+            let bits = self.read_bits(excess).map_err(CopyError::ReadError)?;
+            bit_write
+                .write_bits(bits, excess)
+                .map_err(CopyError::WriteError)?;
+            n -= excess as u64;
+        }
+
         let from_buffer = Ord::min(n, self.bits_in_buffer as _);
         self.buffer = self.buffer.rotate_left(from_buffer as _);
 
@@ -514,6 +525,17 @@ where
         bit_write: &mut W,
         mut n: u64,
     ) -> Result<(), CopyError<Self::Error, W::Error>> {
+        if self.bits_in_buffer > 64 {
+            // After a look-ahead refill the buffer may hold more than the 64
+            // bits a single write_bits call can move: transfer the excess first.
+            let excess = Ord::min(n, self.bits_in_buffer as u64 - 64) as usize;
+            let bits = self.read_bits(excess).map_err(CopyError::ReadError)?;
+            bit_write
+                .write_bits(bits, excess)
+                .map_err(CopyError::WriteError)?;
+            n -= excess as u64;
+        }
+
         let from_buffer = Ord::min(n, self.bits_in_buffer as _);
 
         #[allow(unused_mut)]
